@@ -359,6 +359,13 @@ func (h *handler1) handleBrokerPublish(ctx context.Context, mqPublish *mqPkts.Pu
 		topicID, topicIDType, ok = h.findTopicID(mqPublish.TopicName)
 		needsRegister = !ok
 	}
+	// The same holds for the REGISTER which must announce the TopicID first
+	// (a 4B header and 4B of fixed fields when the topic name is this long).
+	if needsRegister && len(mqPublish.TopicName) > snPkts1.MaxPacketLen-8 {
+		h.log.Error("Dropping a PUBLISH with a topic too long for MQTT-SN (%d B)",
+			len(mqPublish.TopicName))
+		return nil
+	}
 
 	snPublish := snPkts1.NewPublish(topicID, mqPublish.Payload, mqPublish.Dup,
 		mqPublish.Qos, mqPublish.Retain, topicIDType)
